@@ -376,21 +376,28 @@ ensures unmoved(*old(p), *final(p)), r.kind == kind,''')),
         'opt_return_signature': (' res ==> %sadv(*old(p), *final(p)),' % PW, 'res'),
         'at_list_end_token': (' final(p).pos == old(p).pos,', 'res'),
     }
+    # guards that every caller establishes, stated as preconditions: with them the function provably consumes a
+    # token before it calls back into the grammar (C01 stage 3: needed by the recursion measure)
+    MODK = '(%s == SyntaxKind::INV_KW || %s == SyntaxKind::POW_KW || %s == SyntaxKind::CTRL_KW || %s == SyntaxKind::NEGCTRL_KW)' % (CUR, CUR, CUR, CUR)
+    REQ = {
+        'cast_expr': ' is_classical_k(%s),' % CUR,
+        'modified_gate_call_expr': ' %s,' % MODK,
+    }
     LOOPS = {
         'source_file_contents': {1: DEC}, 'switch_case_stmt': {1: 'invariant crate::parser::mono(*old(p), *p), p.pos > old(p).pos,\ndecreases crate::parser::rem(p.st()),'}, 'expr_block_statements': {1: DEC},
         'expr_bp': {1: 'invariant crate::parser::mono(*old(p), *p), bp >= 1, p.pos > old(p).pos,\ndecreases crate::parser::rem(p.st()),'},
-        'postfix_expr': {1: DEC}, 'array_type_spec': {1: 'invariant crate::parser::mono(*old(p), *p), crate::parser::cur(old(p).st()) != SyntaxKind::EOF ==> p.pos > old(p).pos,\ndecreases crate::parser::rem(p.st()),'},
+        'postfix_expr': {1: DEC}, 'array_type_spec': {1: 'invariant crate::parser::mono(*old(p), *p), p.pos > old(p).pos,\ndecreases crate::parser::rem(p.st()),'},
         'indexed_identifier': {1: DEC},
         'modified_gate_call_expr': {1: 'invariant crate::parser::mono(*old(p), *p),\nensures crate::parser::mono(*old(p), *p), (crate::parser::cur(old(p).st()) == SyntaxKind::INV_KW || crate::parser::cur(old(p).st()) == SyntaxKind::POW_KW || crate::parser::cur(old(p).st()) == SyntaxKind::CTRL_KW || crate::parser::cur(old(p).st()) == SyntaxKind::NEGCTRL_KW) ==> p.pos > old(p).pos,\ndecreases crate::parser::rem(p.st()),'}, 'tuple_expr': {1: 'invariant crate::parser::mono(*old(p), *p), p.pos > old(p).pos,\ndecreases crate::parser::rem(p.st()),'},
         'array_expr': {1: 'invariant_except_break n_exprs < p.pos - old(p).pos,\ninvariant crate::parser::mono(*old(p), *p), p.pos > old(p).pos,\ndecreases crate::parser::rem(p.st()),'},
-        '_param_list_openqasm': {1: 'invariant_except_break num_params <= p.pos - old(p).pos,\ninvariant crate::parser::mono(*old(p), *p),\ndecreases crate::parser::rem(p.st()),'},
+        '_param_list_openqasm': {1: 'invariant_except_break num_params <= p.pos - old(p).pos,\ninvariant crate::parser::mono(*old(p), *p),\n    // an array literal opens with `{`, which was consumed: a nested array literal starts strictly later\n    (flavor is ArrayLiteral && crate::parser::at(old(p).st(), SyntaxKind::L_CURLY)) ==> p.pos > old(p).pos,\ndecreases crate::parser::rem(p.st()),'},
     }
 
     def dflt(fileprops):
         def f(name, sig):
             if re.search(r'\bp\s*:\s*&mut\s+Parser', sig):
                 kw = dict(spec=gspec(), props=P, nodecreases=True, all_loops='invariant crate::parser::mono(*old(p), *p),')
-                req = ''
+                req = REQ.get(name, '')
                 for rel_ in STARTS_AT:
                     if name in STARTS_AT[rel_]:
                         req = ' ' + at(STARTS_AT[rel_][name]) + ','
@@ -490,9 +497,10 @@ use super::*;
     U.raw(open(__file__.replace('units/parser.py', 'contracts/parser.ops.rs')).read())
     x.all_fns(dflt(GE), with_starts(GE, {
         'call_arg_list': dict(rewrites=[('GHOST-closure-contract', "|p: &mut Parser<'_>| expr(p).is_some(),",
-                                         "|p: &mut Parser<'_>| -> (b: bool) requires old(p).wf(), ensures crate::parser::mono(*old(p), *final(p)), { expr(p).is_some() },")]),
+                                         "|p: &mut Parser<'_>| -> (b: bool) requires old(p).wf(), crate::parser::rem(old(p).st()) < rem0, ensures crate::parser::mono(*old(p), *final(p)), { expr(p).is_some() },")],
+                              ghost=[('    delimited(', 'before', 'let ghost rem0 = crate::parser::rem(old(p).st());')]),
         'stmt': dict(rewrites=[('GHOST-nested-fn-contract', "    fn let_stmt(p: &mut Parser<'_>, m: Marker) {",
-                                "    fn let_stmt(p: &mut Parser<'_>, m: Marker)\n        requires old(p).wf(), crate::parser::at(old(p).st(), T![let]),\n        ensures crate::parser::mono(*old(p), *final(p)), crate::parser::adv(*old(p), *final(p)),\n    {")]),
+                                "    fn let_stmt(p: &mut Parser<'_>, m: Marker)\n        requires old(p).wf(), crate::parser::at(old(p).st(), T![let]),\n        ensures crate::parser::mono(*old(p), *final(p)), crate::parser::adv(*old(p), *final(p)),\n        decreases crate::parser::rem(old(p).st()), %dnat,\n    {" % __import__('units.parser_ranks', fromlist=['RANK']).RANK.get('let_stmt', 0))]),
         'expr': dict(rewrites=[D8]),
         'range_expr': dict(rewrites=[D8 + (3,)]),
         'expr_or_range_expr': dict(rewrites=[D8 + (3,)]),
@@ -501,7 +509,7 @@ use super::*;
                         # with minimum b + 1 (an operator of the same level does not nest to the right), of a right-associative one with b
                         ghost=[('expr_bp(p, None, Restrictions { prefer_stmt: false }, op_bp);', 'before',
                                 'proof { assert(op_bp == bp_of(op).0 + (if bp_of(op).1 { 0int } else { 1int })); }     //@C05:right-operand-binding-power')]),
-        'array_type_spec': dict(spec=gspec(' !want_array_ref_type ==> ' + at('T![array]') + ',', ENS['array_type_spec'][0])),
+        'array_type_spec': dict(spec=gspec(' !want_array_ref_type ==> ' + at('T![array]') + ', (' + at('T![array]') + ' || ' + at('T![mutable]') + ' || ' + at('T![readonly]') + '),', ENS['array_type_spec'][0])),
         'current_op': dict(ret='r', nodecreases=False, props=P5, spec="""
 requires p.wf(),
 ensures
@@ -533,5 +541,12 @@ ensures
     U.not_verified = ['Marker::{complete,abandon}, CompletedMarker::{precede,extend_to}: event-slot discipline (trusted contracts: state unchanged)',
                       'Parser::nth: Cell step counter and the "parser seems stuck" assertion', 'Parser::error (generic Into<String>)',
                       'Input::{push,was_joint} (SHORT unit)']
+    # ---- C01 stage 3: termination of the mutual recursion of the grammar
+    from units.parser_ranks import RANK
+    for e in U.all_fn_entries():
+        if not e.trusted and e.file.startswith('crates/oq3_parser/src/grammar') and e.spec and 'old(p).wf()' in e.spec:
+            e.nodecreases = False
+            rk = RANK.get(e.name, 0)
+            e.spec = e.spec.rstrip('\n') + '\ndecreases crate::parser::rem(old(p).st()), %s,     // recursion measure: (remaining tokens, rank)' % (rk if isinstance(rk, str) else '%dnat' % rk)
     U.rlimit = 60
     return U
